@@ -353,6 +353,14 @@ func runC07(c *Ctx) {
 		})
 		c.Check(len(apps) > 0, "C07-R2", "parseRule:collects rule comments", pr.Decl.Pos(), "append found", "parseRule no longer collects comments")
 		for _, a := range apps {
+			// `all = append(all, some...)` where `some` is another local list of comments: what goes
+			// into `some` is checked at its own appends
+			if call := a.Inner.(*ast.AssignStmt).Rhs[0].(*ast.CallExpr); call.Ellipsis.IsValid() && len(call.Args) == 2 {
+				if v, isVar := objOf(info, call.Args[1]).(*types.Var); isVar && !v.IsField() && (v.Parent() == nil || v.Parent() != v.Pkg().Scope()) {
+					c.Ok("C07-R2", "parseRule:rule comments filtered by IsRuleComment", a.Inner.Pos(), "a local list, checked where it is filled")
+					continue
+				}
+			}
 			dom := fl.Dominated(a.Site, a.Inner, func(at Atom) bool {
 				call, ok := ast.Unparen(at.E).(*ast.CallExpr)
 				return ok && at.Truth && isCallTo(info, call, "internal/comments.IsRuleComment")
